@@ -4,7 +4,7 @@ import random
 POOL = ['a', 'b', 'c', 'd', 'e']
 
 
-def gen_transform(rng, idx, pool=POOL, allow_params=True, allow_opt=True, avail=None):
+def gen_transform(rng, idx, pool=POOL, allow_params=True, allow_opt=True, avail=None, p_avail=0.85, p_opt=0.3):
     """`avail`: names the previous layers expose; arguments are mostly drawn from them (mostly-valid stacks)"""
     cls = f'T{idx}'
     n_out = rng.choice([0, 1, 1, 2, 2, 3])
@@ -12,7 +12,7 @@ def gen_transform(rng, idx, pool=POOL, allow_params=True, allow_opt=True, avail=
     if rng.random() < 0.06:
         outs.append('id')      # a layer may redefine the key
     full = pool
-    if avail is not None and rng.random() < 0.85:
+    if avail is not None and rng.random() < p_avail:
         pool = sorted(avail) or pool
 
     def sample(k):
@@ -44,8 +44,10 @@ def gen_transform(rng, idx, pool=POOL, allow_params=True, allow_opt=True, avail=
         if (cargs or defaults) and rng.random() < 0.6:
             args.append('_k')
         spec = {'args': args}
-        if allow_opt and rng.random() < 0.3:
+        if allow_opt and rng.random() < p_opt:
             spec['opt'] = True
+        if rng.random() < 0.08 and o != 'id':
+            spec['meta'] = True       # a property of the layer: `layer.name` is the value, not a function
         fields[o] = spec
     r = rng.random()
     d = {'k': 'transform', 'cls': cls, 'fields': fields, 'params': params, 'cargs': cargs, 'defaults': defaults}
@@ -75,7 +77,7 @@ def gen_source(rng, idx, pool=POOL):
     return d
 
 
-def gen_stack(rng, max_layers=6, source=None, caches=True):
+def gen_stack(rng, max_layers=6, source=None, caches=True, p_avail=0.85, p_opt=0.3):
     layers = []
     n = rng.randint(1, max_layers)
     if source is None:
@@ -100,5 +102,5 @@ def gen_stack(rng, max_layers=6, source=None, caches=True):
             names = rng.sample(POOL, rng.choice([1, 2]))
             layers.append({'k': 'apply', 'fns': {nm: f'ap{i}.{nm}' for nm in names}})
         else:
-            layers.append(gen_transform(rng, i + 1, avail=avail))
+            layers.append(gen_transform(rng, i + 1, avail=avail, p_avail=p_avail, p_opt=p_opt))
     return {'k': 'chain', 'flavour': 'chain', 'layers': layers}
